@@ -424,6 +424,9 @@ func (w *World) predict(pre *Snapshot, op Op) Prediction {
 		if op.Agent == "" {
 			p.reject("", "claim needs --agent")
 		}
+		if op.EpicFilter != nil {
+			p.either("", "claim <id> together with --epic: the manual gives --epic a meaning only without an id")
+		}
 		switch kind {
 		case "pruned", "unknown":
 			p.reject(missingOwner(kind), "target id is "+kind)
